@@ -230,18 +230,20 @@ class DTCWTInverse(nn.Module):
                 assert s.shape[self.ri_dim] == 2, "Inputs must be complex " \
                     "with real and imaginary parts in the ri dimension"
                 # Ensure the low and highpass are the right size
-                r, c = low.shape[2:]
-                r1, c1 = s.shape[h_dim], s.shape[w_dim]
-                if r != r1 * 2:
-                    low = low[:,:,1:-1]
-                if c != c1 * 2:
-                    low = low[:,:,:,1:-1]
+                if low is not None and low.shape != torch.Size([]):
+                    r, c = low.shape[2:]
+                    r1, c1 = s.shape[h_dim], s.shape[w_dim]
+                    if r != r1 * 2:
+                        low = low[:,:,1:-1]
+                    if c != c1 * 2:
+                        low = low[:,:,:,1:-1]
 
             low = INV_J2PLUS.apply(low, s, self.g0a, self.g1a, self.g0b,
                                    self.g1b, self.o_dim, self.ri_dim, mode)
 
         # Ensure the low and highpass are the right size
-        if highs[0] is not None and highs[0].shape != torch.Size([]):
+        if highs[0] is not None and highs[0].shape != torch.Size([]) and \
+                low is not None and low.shape != torch.Size([]):
             r, c = low.shape[2:]
             r1, c1 = highs[0].shape[h_dim], highs[0].shape[w_dim]
             if r != r1 * 2:
